@@ -347,8 +347,12 @@ class AirTouchSocket(Generic[comms.Hdr]):
             # wait_closed could raise an error if the socket has been closed by
             # the other side. This will already have been logged, so just
             # suppress it here.
+            # The close waiter is shared by every task waiting for this stream
+            # to close. It is shielded so that cancelling one of those tasks
+            # doesn't cancel it for the others (e.g. close() cancelling a
+            # reset that is in progress).
             with contextlib.suppress(OSError):
-                await self._writer.wait_closed()
+                await asyncio.shield(self._writer.wait_closed())
 
         self.is_connected = False
         self._reader = None
